@@ -5,9 +5,10 @@ namespace Grep
 
 /-- The numbered regex rejects a line without a `.ext`-sep-number-sep look-alike. -/
 theorem parseVariant_extNum_none (line : List Char)
-    (h : hasNumLookAlike Generated.Grep.extMax line = false) :
+    (h : hasNumLookAlike docExtMax line = false) :
     parseVariant .extNum line = none := by
-  have hl : longest (extPathOk Generated.Grep.extMin Generated.Grep.extMax) (parseSep true) [] line
+  rw [← extMaxNum_eq] at h
+  have hl : longest (extPathOk Generated.Grep.extMinNum Generated.Grep.extMaxNum) (parseSep true) [] line
       = none := by
     apply longest_none
     intro u' v' hsplit hboth
@@ -20,23 +21,24 @@ theorem parseVariant_extNum_none (line : List Char)
       rw [hsplit, hu, hv]
       simp [List.append_assoc]
     have hlo' : 1 ≤ ext.length := hlo
-    have := hasNumLookAlike_intro Generated.Grep.extMax (c0 :: (mid ++ [e])) ext d code' t
+    have := hasNumLookAlike_intro Generated.Grep.extMaxNum (c0 :: (mid ++ [e])) ext d code' t
       hext hlo' hhi ht hd hd2
     rw [← hline, h] at this
     exact Bool.noConfusion this
-  show Option.map mkParsed (longest (extPathOk Generated.Grep.extMin Generated.Grep.extMax)
+  show Option.map mkParsed (longest (extPathOk Generated.Grep.extMinNum Generated.Grep.extMaxNum)
     (parseSep true) [] line) = none
   rw [hl]
   rfl
 
 /-- The no-spaces regex reads `path s code` back when the code has no `.ext`-sep look-alike. -/
 theorem parseVariant_extNoSpaces_some (path code : List Char) (s : Char) (kind : Kind)
-    (hpath : noSpacePathOk Generated.Grep.extMinNoSpaces Generated.Grep.extMaxNoSpaces path = true)
+    (hpath : noSpacePathOk docExtMin docExtMaxNoSpaces path = true)
     (hks : kindOfSep s = some kind) (hsc : isSepChar s = true)
     (hcode : codeOk code = true)
-    (hsepLA : hasSepLookAlike Generated.Grep.extMax code = false)
+    (hsepLA : hasSepLookAlike docExtMax code = false)
     (hstart : startsWithNum s code = false) :
     parseVariant .extNoSpaces (path ++ s :: code) = some ⟨path, kind, none, code⟩ := by
+  rw [← extMinNoSpaces_eq, ← extMaxNoSpaces_eq] at hpath
   have hl : longest (noSpacePathOk Generated.Grep.extMinNoSpaces Generated.Grep.extMaxNoSpaces)
       (parseSep false) [] (path ++ s :: code) = some ([] ++ path, (kind, none, code)) := by
     apply longest_some
@@ -49,8 +51,9 @@ theorem parseVariant_extNoSpaces_some (path code : List Char) (s : Char) (kind :
       obtain ⟨t, rest, hv, ht⟩ := parseSep_some_head hr
       obtain ⟨body, e, ext, hu, _, _, _, hext, hlo, hhi⟩ := noSpacePathOk_elim hP
       have hlo' : 1 ≤ ext.length := hlo
-      have hhi' : ext.length ≤ Generated.Grep.extMax := by
-        have h6 : ext.length ≤ 6 := hhi
+      have hhi' : ext.length ≤ docExtMax := by
+        have h6 : ext.length ≤ docExtMaxNoSpaces := extMaxNoSpaces_eq ▸ hhi
+        have h6' : ext.length ≤ 6 := h6
         show ext.length ≤ 10
         omega
       have hsext : extOk s = false := extOk_of_isSepChar hsc
@@ -91,7 +94,7 @@ theorem parseVariant_extNoSpaces_some (path code : List Char) (s : Char) (kind :
             exact Bool.noConfusion this
       have hcode2 : code = w1 ++ '.' :: (ext ++ t :: rest) := by
         rw [hcodeEq, hw0, hv]; simp
-      have := hasSepLookAlike_intro Generated.Grep.extMax w1 ext rest t hext hlo' hhi' ht
+      have := hasSepLookAlike_intro docExtMax w1 ext rest t hext hlo' hhi' ht
       rw [← hcode2, hsepLA] at this
       exact Bool.noConfusion this
   show Option.map mkParsed (longest
